@@ -1,12 +1,13 @@
 #!/bin/bash
-# usage: tools/try_seed.sh <patch.diff> <ID> [tier]   -- applies the patch to /repo, runs the check, always undoes it
+# usage: tools/try_seed.sh <patch.diff> <ID> [tier] [lines]
+# Applies the patch to a scratch worktree of /repo HEAD (never to /repo itself), runs the check against that tree with its
+# evidence/replays written to a scratch directory, removes the worktree.
 P="$(realpath "$1")"; ID="$2"; TIER="${3:-quick}"
-cd /repo || exit 9
-if [ -n "$(git status --porcelain --untracked-files=no)" ]; then echo "/repo not clean"; exit 9; fi
-git apply "$P" || { echo "patch does not apply"; exit 9; }
-( cd /verif && bin/check "$ID" --tier "$TIER" > /tmp/try_seed_$ID.log 2>&1 ); rc=$?
-git -C /repo checkout -- .
-# leave evidence/replays of the seeded run out of the tree
-( cd /verif && git checkout -- evidence/$ID.json 2>/dev/null; git clean -qfd replays 2>/dev/null )
-echo "rc=$rc"; grep -E "^(VIOLATION|KNOWN|NONREPRO|HARNESS|INCONCLUSIVE|  key=|\[)" /tmp/try_seed_$ID.log | head -${4:-12}
+WT=$(mktemp -d /tmp/seedwt.XXXXXX); OUTD=$(mktemp -d /tmp/seedout.XXXXXX)
+rmdir "$WT"; git -C /repo worktree add -q --detach "$WT" HEAD || exit 9
+cp /repo/matid/ext.cpython-312-x86_64-linux-gnu.so "$WT/matid/" 2>/dev/null
+if ! git -C "$WT" apply "$P"; then echo "patch does not apply"; git -C /repo worktree remove --force "$WT"; rm -rf "$OUTD"; exit 9; fi
+( cd /verif && VERIF_REPO="$WT" VERIF_OUT="$OUTD" bin/check "$ID" --tier "$TIER" > /tmp/try_seed_$ID.$$.log 2>&1 ); rc=$?
+git -C /repo worktree remove --force "$WT"; rm -rf "$OUTD"
+echo "rc=$rc"; grep -E "^(VIOLATION|KNOWN|NONREPRO|HARNESS|INCONCLUSIVE|  key=|\[)" /tmp/try_seed_$ID.$$.log | head -${4:-12}; rm -f /tmp/try_seed_$ID.$$.log
 exit 0
